@@ -408,6 +408,8 @@ func (s *Script) compSort(key string) string {
 		return "(Array Int (Array Int Int))"
 	case "ghostset":
 		return "(Array Int (Array Int Bool))"
+	case "ghoststr":
+		return "(Array Int (Array Int Str))"
 	case "field", "cell", "ghost":
 		if ci.t == nil {
 			return "(Array Int Int)"
@@ -457,6 +459,8 @@ func (env *Env) regGhostComp(key string, t types.Type, special string) {
 			env.comps[key] = compInfo{kind: "ghostmap"}
 		} else if special == "intset" {
 			env.comps[key] = compInfo{kind: "ghostset"}
+		} else if special == "strmap" {
+			env.comps[key] = compInfo{kind: "ghoststr"}
 		} else {
 			env.comps[key] = compInfo{kind: "ghost", t: t}
 		}
